@@ -309,6 +309,9 @@ def _send_shape(fn: ast.FunctionDef, who: str) -> List[str]:
         return ["stub"]
     if [_u(x) for x in b] == ["self._capture_nmne(frame, inbound=False)", "self._capture_traffic(frame, inbound=False)"]:
         return ["capture"]          # NetworkInterface.send_frame: bookkeeping only, reached through super()
+    if who == "NetworkInterface":
+        # the abstract base's bookkeeping has changed: named (what it does to the frame is in `frameCallsBetween…` / `frameWritesBetween…`)
+        return ["capture", "and-more"]
     return _send_order(fn, who)
 
 
@@ -457,6 +460,132 @@ def size_is_whole_bytes() -> bool:
     return True
 
 
+# ------------------------------------------------------------------------------------------------- round 4
+def _writes_of(attr: str) -> List[str]:
+    """Every place in src/primaite that writes the attribute `attr` (a dict or a number): assignment / augmented assignment /
+    annotated declaration / `del` of the attribute or of a subscript of it, and calls of a mutating dict method on it."""
+    out = set()
+    mutators = {"pop", "clear", "update", "setdefault", "popitem", "__setitem__", "__delitem__"}
+
+    def hits(t: ast.AST) -> bool:
+        while isinstance(t, ast.Subscript):
+            t = t.value
+        return (isinstance(t, ast.Attribute) and t.attr == attr) or (isinstance(t, ast.Name) and t.id == attr)
+
+    for rel in _py_files(""):
+        tree = parse(rel)
+        where = _enclosing(tree)
+        for n in ast.walk(tree):
+            tgts, kind = [], None
+            if isinstance(n, ast.Assign):
+                tgts, kind = n.targets, "="
+            elif isinstance(n, ast.AugAssign):
+                tgts, kind = [n.target], type(n.op).__name__ + "="
+            elif isinstance(n, ast.AnnAssign):
+                tgts, kind = [n.target], "declared"
+            elif isinstance(n, ast.Delete):
+                tgts, kind = n.targets, "del"
+            for t in tgts:
+                if hits(t):
+                    sub = "[…]" if isinstance(t, ast.Subscript) else ""
+                    out.add(f"{_site(rel, where[n])}:{attr}{sub} {kind}")
+            if (isinstance(n, ast.Call) and isinstance(n.func, ast.Attribute) and n.func.attr in mutators and hits(n.func.value)):
+                out.add(f"{_site(rel, where[n])}:{attr}.{n.func.attr}()")
+    return sorted(out)
+
+
+def air_load_writers() -> List[str]:
+    return _writes_of("bandwidth_load")
+
+
+def link_load_writers() -> List[str]:
+    return _writes_of("current_load")
+
+
+def air_membership_ops() -> List[tuple]:
+    """`AirSpace.add_wireless_interface` / `remove_wireless_interface` / `clear`: strict shapes; they handle the interface registry
+    and the per-frequency interface lists and NOTHING else (in particular not `bandwidth_load`)."""
+    air = class_def(parse(AIR), "AirSpace")
+    hz = "wireless_interface.frequency.frequency_hz"
+    add = [_u(x) for x in _body(find_method(air, "add_wireless_interface"))]
+    exp_add = [f"if wireless_interface.mac_address not in self.wireless_interfaces:\n"
+               f"    self.wireless_interfaces[wireless_interface.mac_address] = wireless_interface\n"
+               f"    if {hz} not in self.wireless_interfaces_by_frequency:\n"
+               f"        self.wireless_interfaces_by_frequency[{hz}] = []\n"
+               f"    self.wireless_interfaces_by_frequency[{hz}].append(wireless_interface)"]
+    steps_add = ["if-absent", "register", "ensure-list", "append-to-list"] if add == exp_add else ["unrecognised"]
+    rem = [_u(x) for x in _body(find_method(air, "remove_wireless_interface"))]
+    exp_rem = [f"if wireless_interface.mac_address in self.wireless_interfaces:\n"
+               f"    self.wireless_interfaces.pop(wireless_interface.mac_address)\n"
+               f"    self.wireless_interfaces_by_frequency[{hz}].remove(wireless_interface)"]
+    steps_rem = ["if-present", "unregister", "remove-from-list"] if rem == exp_rem else ["unrecognised"]
+    clr = [_u(x) for x in _body(find_method(air, "clear"))]
+    steps_clr = (["clear-registry", "clear-lists"]
+                 if clr == ["self.wireless_interfaces.clear()", "self.wireless_interfaces_by_frequency.clear()"] else ["unrecognised"])
+    # an unexpected body is NAMED (not raised) so that exactly `C18_gen_air_membership_ops` (and, if a load is touched,
+    # `C18_gen_load_writers`) fails
+    return [("add_wireless_interface", steps_add), ("clear", steps_clr), ("remove_wireless_interface", steps_rem)]
+
+
+def _frame_touches(fn: ast.FunctionDef, var: str = "frame"):
+    """(writes, calls) a function makes on its frame argument: assignments / augmented assignments / deletes whose target is rooted at
+    `var`, and method calls on `var` or on something reached from it."""
+    writes, calls = set(), set()
+
+    def root(t):
+        while isinstance(t, (ast.Attribute, ast.Subscript)):
+            t = t.value
+        return t.id if isinstance(t, ast.Name) else None
+
+    for n in ast.walk(fn):
+        tgts = n.targets if isinstance(n, (ast.Assign, ast.Delete)) else [n.target] if isinstance(n, (ast.AugAssign, ast.AnnAssign)) else []
+        for t in tgts:
+            if not isinstance(t, ast.Name) and root(t) == var:
+                writes.add(_u(t))
+        if isinstance(n, ast.Call) and isinstance(n.func, ast.Attribute) and root(n.func.value) == var:
+            calls.add(_u(n.func) + "()")
+    return writes, calls
+
+
+def size_window() -> dict:
+    """F-28b's class, for every send path: the size the admission test sees and the size the accounting loads are two evaluations of
+    `frame.size_Mbits` (one inside `can_transmit_frame`, one at the top of `transmit_frame` / `AirSpace.transmit`).  What is
+    extracted: (1) how often each of the four functions evaluates it; (2) the statements between the admission `if` and the transmit
+    call in every transmitting `send_frame` (already restricted by `_send_order` to `super().send_frame(frame)` and
+    `self.pcap.capture_outbound(frame)`); (3) everything those callees — `NetworkInterface.send_frame`, `_capture_nmne`,
+    `_capture_traffic`, `PacketCapture.capture_outbound` — do to the frame: writes (must be none) and method calls (read-only
+    serialisation); (4) nothing precedes the size read in `transmit_frame` / `transmit` except choosing the receiver."""
+    base = parse(BASE)
+    air = class_def(parse(AIR), "AirSpace")
+    link = class_def(base, "Link")
+    ni = class_def(base, "NetworkInterface")
+    pcap = class_def(parse("simulator/system/core/packet_capture.py"), "PacketCapture")
+
+    def n_evals(fn):
+        return sum(1 for n in ast.walk(fn) if isinstance(n, ast.Attribute) and n.attr in ("size_Mbits", "size") and _u(n.value) == "frame")
+    evals = [("AirSpace.can_transmit_frame", n_evals(find_method(air, "can_transmit_frame"))),
+             ("AirSpace.transmit", n_evals(find_method(air, "transmit"))),
+             ("Link.can_transmit_frame", n_evals(find_method(link, "can_transmit_frame"))),
+             ("Link.transmit_frame", n_evals(find_method(link, "transmit_frame")))]
+    writes, calls = set(), set()
+    for cls, m in ((ni, "send_frame"), (ni, "_capture_nmne"), (ni, "_capture_traffic"), (pcap, "capture_outbound")):
+        w_, c_ = _frame_touches(find_method(cls, m))
+        writes |= {f"{cls.name}.{m}:{x}" for x in w_}
+        calls |= {f"{cls.name}.{m}:{x}" for x in c_}
+    # the first load-relevant statement of AirSpace.transmit is the `+= frame.size_Mbits`; of Link.transmit_frame the size read
+    first_air = _u(_body(find_method(air, "transmit"))[0])
+    if "frame.size_Mbits" not in first_air:
+        raise ValueError("AirSpace.transmit: the size is not read first")
+    pre = []
+    for st in _body(find_method(link, "transmit_frame")):
+        if isinstance(st, ast.Assign) and _u(st.value) == "frame.size_Mbits":
+            break
+        pre.append(_u(st))
+    if pre != ["receiver = self.endpoint_a", "if receiver == sender_nic:\n    receiver = self.endpoint_b"]:
+        raise ValueError(f"Link.transmit_frame: unexpected statements before the size is read: {pre}")
+    return {"evals": evals, "writes": sorted(writes), "calls": sorted(calls)}
+
+
 def lst(xs: List[str]) -> str:
     return "[" + ", ".join(f'"{x}"' for x in xs) + "]"
 
@@ -523,6 +652,7 @@ def emit() -> str:
         _reject_means_node_not_involved(find_method(class_def(parse(SWITCH), "SwitchPort"), "receive_frame"), "SwitchPort"),
         _reject_means_node_not_involved(find_method(class_def(parse(WROUTER), "WirelessAccessPoint"), "receive_frame"), "WirelessAccessPoint"),
     ])
+    szw = size_window()
     ifm = ",\n".join(f'  ("{c}", "{f}", "{m}", {lst(st)})' for c, f, m, st in iface_methods())
     return f"""namespace Primaite.Gen.Link
 /-- `Link.can_transmit_frame`: `if self.is_up: return self.current_load + frame.size_Mbits <= self.bandwidth`; `return False` -/
@@ -569,5 +699,18 @@ of `.execute(` on a terminal connection -/
 def remoteExecutors : List String := {lst(remote_executors())}
 /-- every call that can change `enabled` of a network interface (under simulator/) -/
 def toggleSites : List String := {lst(toggle_sites())}
+/-- every place in src/primaite that writes `bandwidth_load` (the airspace's per-frequency load) -/
+def airLoadWriters : List String := {lst(air_load_writers())}
+/-- every place in src/primaite that writes `current_load` (a link's load) -/
+def linkLoadWriters : List String := {lst(link_load_writers())}
+/-- `AirSpace.add_wireless_interface` / `clear` / `remove_wireless_interface`: the steps of each (strict shapes: registry and
+per-frequency interface lists only) -/
+def airMembershipOps : List (String × List String) := [{", ".join(f'("{n}", {lst(st)})' for n, st in air_membership_ops())}]
+/-- how many times each admission / accounting function evaluates `frame.size_Mbits` -/
+def sizeEvaluations : List (String × Nat) := [{", ".join(f'("{n}", {k})' for n, k in szw["evals"])}]
+/-- what the code that runs between the admission test and the accounting (`NetworkInterface.send_frame`, `_capture_nmne`,
+`_capture_traffic`, `PacketCapture.capture_outbound`) writes on the frame, and which methods of the frame it calls -/
+def frameWritesBetweenAdmissionAndAccounting : List String := {lst(szw["writes"])}
+def frameCallsBetweenAdmissionAndAccounting : List String := {lst(szw["calls"])}
 end Primaite.Gen.Link
 """
